@@ -189,6 +189,9 @@ def scenarios(prop, tier):
         # END_STREAM - 17.2 MiB in "last frames" only, so that credit withheld for the frame that ends a
         # stream (or per response) exhausts the connection window although no single transfer is large
         S.append(("get1100-one-frame-each-17MiB", [dict(name=f"r{i}", url=f"http://a.test/big{i}") for i in range(1, 1101)], dict(), {"big": 16384, "frame": 16384}))
+        # responses ABANDONED after their first chunk: what the server still sends into them uses up the
+        # connection's receive window; 18 x 1 MiB is more than the client grants up front
+        S.append(("abandon18x1MiB-then-download", [dict(name=f"r{i}", url=f"http://a.test/big{i}", consume=("chunks", 1)) for i in range(1, 19)] + [dict(name="r19", url="http://a.test/big19")], dict(), {"big": 1024 * 1024, "frame": 16384}))
         if not quick:
             S.append(("download-17MiB", [dict(name="r1", url="http://a.test/big1"), dict(name="r2", url="http://a.test/2")], dict(), {"big": 17 * 1024 * 1024 + 123}))
         else:
@@ -230,6 +233,14 @@ def stimulus_class(run):
             out.add("goaway")
         elif e["e"] == "S_WU":
             out.add("window-update")
+    # responses the CALLER let go of before their end: how many flow-controlled bytes the server still had to
+    # send into them (the signature of KF14 needs more than the 16 MiB + 65,535 the client grants up front)
+    left = 0
+    for n, call in run.calls.items():
+        if call.consume != "all" and run.big_body and "/big" in str(call.url):
+            left += len(run.big_body)
+    if left:
+        out.add("abandon/over-16MiB" if left > (1 << 24) else "abandon")
     return sorted(out) or ["plain"]
 
 
